@@ -44,4 +44,14 @@ CHECKS = {
         ],
         assumptions=SIM_ASSUMPTIONS + ["the sim prunes null-valued fields of custom resources like a structural-schema CRD does"],
     ),
+    "C14": dict(
+        level="model_checking",
+        rule="configuration (parent scope x generateSelector x ignoreStatusChanges x controller selector) x every event shape: parent add/delete/tombstone/6 update kinds/resync for matching, non-matching and finalizer-carrying parents; child add/update/delete/tombstone/resync for 14 roles; related-object events (8); "
+             "each case = fresh world with the real Start()-installed handlers, one delivered event, queue compared with the decision table",
+        units=[
+            dict(pkg=COMPOSITE, test="TestVerifC14", shards=dict(quick=4, thorough=4), budget=dict(quick=300, thorough=600)),
+            dict(pkg=DECORATOR, test="TestVerifC14", shards=dict(quick=4, thorough=4), budget=dict(quick=300, thorough=600)),
+        ],
+        assumptions=SIM_ASSUMPTIONS,
+    ),
 }
